@@ -54,10 +54,12 @@ def make_set_slope_exp(lemmas=("classification", "rejection")):
     return Unit(
         name="spl_set_slope_exp", file=SPL_H,
         anchor=r"void set_slope_exp\(double value\)",
-        sig="void spl_set_slope_exp(double value, double *m_slope_exp, _Bool *m_linear, _Bool graph_single_flow)",
+        # the other scalar members of the eroder are in scope too (vocabulary): a body that reads them still extracts
+        sig="void spl_set_slope_exp(double value, double *m_slope_exp, _Bool *m_linear, _Bool graph_single_flow, const double *m_tolerance, const double *m_area_exp)",
         pre=COMMON, rules=[THROW, SINGLE_FLOW, MEMBERS],
         contract=r"""
 __CPROVER_requires(__CPROVER_is_fresh(m_slope_exp, 8) && __CPROVER_is_fresh(m_linear, 1) && fsl_thrown == 0)
+__CPROVER_requires(__CPROVER_is_fresh(m_tolerance, 8) && __CPROVER_is_fresh(m_area_exp, 8))
 __CPROVER_assigns(*m_slope_exp, *m_linear, fsl_thrown)
 """ + "".join(SETTER_LEMMAS[l] for l in lemmas),
     )
@@ -121,8 +123,9 @@ def make_ctor():
         rules=[THROW, SINGLE_FLOW, MEMBERS,
                V(r"\bset_k_coef\(k_coef\);", "*k_coef_set = 1; /* broadcast / flatten of the erodibility: glue */"),
                V(r"\bset_area_exp\(([^();]*)\);", r"spl_set_area_exp(\1, m_area_exp); if (fsl_thrown) return;"),
-               V(r"\bset_slope_exp\(([^();]*)\);", r"spl_set_slope_exp(\1, m_slope_exp, m_linear, graph_single_flow); if (fsl_thrown) return; /* exception propagates */"),
-               V(r"\bm_erosion\.resize\(m_shape\);", "*erosion_allocated = 1;")],
+               V(r"\bset_slope_exp\(([^();]*)\);", r"spl_set_slope_exp(\1, m_slope_exp, m_linear, graph_single_flow, m_tolerance, m_area_exp); if (fsl_thrown) return; /* exception propagates */"),
+               V(r"\bm_erosion\.resize\(m_shape\);", "*erosion_allocated = 1;"),
+               V(r"\bm_erosion = xt::zeros<\w+>\(m_shape\);", "*erosion_allocated = 1;")],
         contract=r"""
 __CPROVER_requires(__CPROVER_is_fresh(m_area_exp, 8) && __CPROVER_is_fresh(m_slope_exp, 8) && __CPROVER_is_fresh(m_tolerance, 8))
 __CPROVER_requires(__CPROVER_is_fresh(m_linear, 1) && __CPROVER_is_fresh(k_coef_set, 1) && __CPROVER_is_fresh(erosion_allocated, 1))
@@ -142,9 +145,9 @@ H_SETTER = r"""
 double nondet_double(void); _Bool nondet_bool(void);
 void h_spl_set_slope_exp(void)
 {
-    double *m_slope_exp; _Bool *m_linear;
+    double *m_slope_exp; _Bool *m_linear; const double *m_tolerance, *m_area_exp;
     fsl_thrown = 0;
-    spl_set_slope_exp(nondet_double(), m_slope_exp, m_linear, nondet_bool());
+    spl_set_slope_exp(nondet_double(), m_slope_exp, m_linear, nondet_bool(), m_tolerance, m_area_exp);
     __CPROVER_assert(0, "canary: postcondition point reachable");
 }
 """
@@ -360,11 +363,12 @@ NEWTON_LEMMAS = {
     # C13 newton_exit, from the property: "within the configured Newton tolerance" = |residual| <= tolerance at a
     # normal exit (the loop is also left when the drop reaches 0: erosion limited)
     "exit": dict(
-        requires="__CPROVER_requires(!isnan(m_tolerance))   /* the configured tolerance is a number */\n",
+        requires="",
         invariant="__CPROVER_loop_invariant(1 == 1)\n",
         # NaN residual / drop = non-finite operands (extreme K dt products): outside this clause, known finding F12
-        ensures="__CPROVER_ensures(isnan(SPL_N_FUNC) || isnan(SPL_N_DELTA) || SPL_N_DELTA <= 0 || (SAME_D(SPL_N_AT, SPL_N_DELTA) && SPL_N_FUNC <= m_tolerance))   /* C13 newton_exit: residual <= tolerance at the returned drop */\n"
-                "__CPROVER_ensures(isnan(SPL_N_FUNC) || isnan(SPL_N_DELTA) || SPL_N_DELTA <= 0 || SPL_N_FUNC >= -m_tolerance)   /* C13 newton_exit: residual >= -tolerance (|residual| within the tolerance) */\n"),
+        # (a NaN tolerance is not a configuration: excluded in the same way)
+        ensures="__CPROVER_ensures(isnan(m_tolerance) || isnan(SPL_N_FUNC) || isnan(SPL_N_DELTA) || SPL_N_DELTA <= 0 || (SAME_D(SPL_N_AT, SPL_N_DELTA) && SPL_N_FUNC <= m_tolerance))   /* C13 newton_exit: residual <= tolerance at the returned drop */\n"
+                "__CPROVER_ensures(isnan(m_tolerance) || isnan(SPL_N_FUNC) || isnan(SPL_N_DELTA) || SPL_N_DELTA <= 0 || SPL_N_FUNC >= -m_tolerance)   /* C13 newton_exit: residual >= -tolerance (|residual| within the tolerance) */\n"),
     # u = h - (delta_0 - delta), delta_0 = h - h'_r
     "shape": dict(
         requires="",
@@ -767,3 +771,57 @@ PROPS = {
         ],
     ),
 }
+
+
+# ------------------------------------------------------------------------------------------ C13: shape of the stream-power factor
+# The property's equation has (drainage area x partition weight)^m: the FIRST power taken in a receiver's contribution must be of
+# the product area * weight with the area exponent.  Decided by recording the operands: the product inside the power and the power
+# itself are replaced by contract-only functions whose contracts expose their arguments through ghost variables.
+AREAPOW_PRE = r"""
+#ifndef SPL_AREAPOW
+#define SPL_AREAPOW
+size_t POW_N; double POW_X0, POW_P0;     /* ghost: number of pow calls so far, arguments of the first one */
+double MUL_A, MUL_B, MUL_R; int MUL_SEEN; /* ghost: operands and value of the area * weight product */
+double spl_pow_rec(double x, double p)
+__CPROVER_assigns(POW_N, POW_X0, POW_P0)
+__CPROVER_ensures(POW_N == __CPROVER_old(POW_N) + 1)
+__CPROVER_ensures(__CPROVER_old(POW_N) == 0 ==> (SAME_D(POW_X0, x) && SAME_D(POW_P0, p)))
+__CPROVER_ensures(__CPROVER_old(POW_N) != 0 ==> (SAME_D(POW_X0, __CPROVER_old(POW_X0)) && SAME_D(POW_P0, __CPROVER_old(POW_P0))))
+__CPROVER_ensures((x >= 0 && !isnan(p)) ==> (__CPROVER_return_value >= 0))
+;
+double spl_mul_aw(double a, double w)
+__CPROVER_assigns(MUL_A, MUL_B, MUL_R, MUL_SEEN)
+__CPROVER_ensures(MUL_SEEN == 1 && SAME_D(MUL_A, a) && SAME_D(MUL_B, w) && SAME_D(MUL_R, __CPROVER_return_value))
+;
+#define fsl_pow(x, p) spl_pow_rec((x), (p))
+#endif
+"""
+
+
+def make_recv_areapow(w):
+    u = make_recv(w, "frame")
+    u.pre = AREAPOW_PRE + u.pre
+    u.rules = [V(r"drainage_area\.flat\((\w+)\) \* irec_weight", r"spl_mul_aw(drainage_area.flat(\1), irec_weight)"),
+               V(r"irec_weight \* drainage_area\.flat\((\w+)\)", r"spl_mul_aw(drainage_area.flat(\1), irec_weight)")] + u.rules
+    u.contract = u.contract.replace("__CPROVER_assigns(*eq_num_p, *eq_den_p, ", "__CPROVER_assigns(POW_N, POW_X0, POW_P0, MUL_A, MUL_B, MUL_R, MUL_SEEN, *eq_num_p, *eq_den_p, ") + r"""
+__CPROVER_requires(POW_N == 0 && MUL_SEEN == 0)
+/* C13: whenever this receiver contributes (a power was taken), the first power is (drainage area x partition weight)^m */
+__CPROVER_ensures(POW_N > 0 ==> (MUL_SEEN == 1 && SAME_D(MUL_A, drainage_area[inode]) && SAME_D(MUL_B, m_receivers_weight[inode * REC_W + r])
+                                   && SAME_D(POW_X0, MUL_R) && SAME_D(POW_P0, m_area_exp)))
+"""
+    return u
+
+
+def areapow_group(w):
+    recv = make_recv_areapow(w)
+    h = H_RECV.replace("SPL_N_FUNC = nondet_double();", "POW_N = 0; MUL_SEEN = 0; SPL_N_FUNC = nondet_double();")
+    return Group(
+        name="spl.recv.areapow.w%d" % w, units=[make_newton("exit"), recv], harness=h,
+        entry="h_spl_recv_step", enforce="spl_recv_step", replace=_called(recv, ["spl_newton_branch"]) + ["spl_pow_rec", "spl_mul_aw"],
+        defines=defines(w), backend="sat", timeout=600, min_obligations=20, replay="replay/spl.cpp",
+        clause="C13 shape of the stream-power factor: the first power taken for a receiver is (drainage area * partition weight)^area_exp "
+               "(operands recorded through contract-only product/power functions)")
+
+
+_AP = [areapow_group(1)]
+GROUPS["C13"] = GROUPS["C13"] + _AP
